@@ -26,15 +26,16 @@ from .. import common as c
 from .. import indep_util as iu
 
 PROP = "C13"
-SIGS = {"dfsTreeFrag": "F31", "fragIdOrder": "F32", "itpGlobal": "F33"}
+# F31, F32, F33 are REPAIRED (known_findings.jsonl): their deviation flags stay as sensitivity runs, nothing is classified as known any more
+REPAIRED = {"dfsTreeFrag": "F31", "fragIdOrder": "F32", "itpGlobal": "F33"}
 DEVS = [("Ind_dev_sliceany.cfg", "fragment nodes sliced in set-iteration order (F15, repaired)"),
         ("Ind_dev_key0.cfg", "terminal modification looked up by node key 0 / resid-1 (F9, repaired)"),
         ("Ind_dev_addany.cfg", "blocks added in node order instead of residue-id order"),
         ("Ind_dev_firstmatch.cfg", "a link applied to the first match found only"),
         ("Ind_dev_orient.cfg", "stored edge orientation decides the link direction"),
-        ("Ind_dev_dfstree.cfg", "open finding: fragments = components over depth-first tree edges"),
-        ("Ind_dev_fragid.cfg", "open finding: correspondences stored in merge order, looked up by fragment id"),
-        ("Ind_dev_itpglobal.cfg", "open finding: finishing an .itp re-tags the versions of all links read so far")]
+        ("Ind_dev_dfstree.cfg", "fragments = components over depth-first tree edges (F31, repaired)"),
+        ("Ind_dev_fragid.cfg", "correspondences stored in merge order, looked up by fragment id (F32, repaired)"),
+        ("Ind_dev_itpglobal.cfg", "finishing an .itp re-tags the versions of all links read so far (F33, repaired)")]
 HDEVS = [("Ind_hist_dev_cacheff.cfg", "loaded force fields cached between calls: retagged exclusion distances / citation sets leak"),
          ("Ind_hist_dev_append.cfg", "output appended to an existing file"),
          ("Ind_hist_dev_flushlate.cfg", "deferred writer queue flushed by the next call")]
@@ -57,15 +58,12 @@ def _fix_ffs(ffs):
 
 # ------------------------------------------------------------------ S -> I: variants
 
-def classify(obs, exp, vrec, devlist):
-    """ok / known:<flag> / bad.  A deviating observation is a known finding only if it EQUALS what the I-layer gives with that deviation"""
+def classify(obs, exp, vrec):
+    """ok / bad (+ a hint when the deviating observation equals what the repaired finding F33 would give for this very presentation)"""
     if iu.same(obs, exp):
         return "ok", None
     if vrec.get("itpdiffers") and iu.same(obs, iu.expected_proj(vrec["itpout"])):
-        return "known", "itpGlobal"
-    for proj, fired in devlist:
-        if "itpGlobal" not in fired and iu.same(obs, proj):
-            return "known", fired[0]
+        return "bad", "itpGlobal"
     return "bad", None
 
 
@@ -75,7 +73,7 @@ def _replay_chunk(arg):
     wd = c.workdir(PROP, "replay_%s" % wdname)
     out = []
     stats = {"direct": 0, "gen_params": 0}
-    for case, exp, vidx, vrec, devlist in items:
+    for case, exp, vidx, vrec in items:
         F = ffs[case["ff"] - 1]
         var = vrec["var"]
         try:
@@ -83,7 +81,7 @@ def _replay_chunk(arg):
         except Exception as exc:  # rendering failed: harness problem
             return {"machinery": "%s: %s (case %s variant %s)" % (type(exc).__name__, exc, case["id"], vidx)}
         stats["direct"] += 1
-        kind, flag = classify(obs, exp, vrec, devlist)
+        kind, flag = classify(obs, exp, vrec)
         if kind != "ok":
             out.append((case["id"], vidx, "direct", kind, flag, iu.diff(obs, exp)[:3], {k: obs.get(k) for k in ("err", "msg", "atoms", "ints", "nrexcl", "cites")}))
         if var["route"] == "json" and (vidx % gp_mod == 0) or vidx == 0:
@@ -91,7 +89,7 @@ def _replay_chunk(arg):
             gv["route"] = "json"
             obs2, path = iu.run_gen_params(case, F, gv, wd, tag="g%d_%d" % (case["id"], vidx))
             stats["gen_params"] += 1
-            kind2, flag2 = classify(obs2, exp, vrec, devlist)
+            kind2, flag2 = classify(obs2, exp, vrec)
             if kind2 != "ok":
                 out.append((case["id"], vidx, "gen_params", kind2, flag2, iu.diff(obs2, exp)[:3], {k: obs2.get(k) for k in ("err", "msg", "atoms", "ints", "nrexcl", "cites")}))
             elif kind == "ok" and not obs.get("err") and not iu.same(obs, obs2):
@@ -99,19 +97,11 @@ def _replay_chunk(arg):
     return {"res": out, "stats": stats}
 
 
-def replay_variants(ck, ex, dv, tier):
+def replay_variants(ck, ex, tier):
     ffs = _fix_ffs(ex.tagged("FFS")[0])
     cases = sorted(ex.cases(), key=lambda x: x["case"]["id"])
     if len(cases) < 20:
         raise c.MachineryError("too few exported base cases: %d" % len(cases))
-    devres = {}
-    for d in dv.tagged("DEVRES"):
-        if d["fired"]:
-            p = iu.expected_proj(d["out"])
-            lst = devres.setdefault(d["id"], [])
-            if (p, sorted(d["fired"])) not in lst:
-                lst.append((p, sorted(d["fired"])))
-    ck.extra["deviation_results_per_case"] = {str(k): [f for _, f in v] for k, v in sorted(devres.items())}
     items = []
     byid = {}
     for cs in cases:
@@ -119,7 +109,7 @@ def replay_variants(ck, ex, dv, tier):
         byid[case["id"]] = cs
         exp = iu.expected_proj(cs["expected"])
         for vidx, vrec in enumerate([cs["base"]] + list(cs["variants"])):
-            items.append((case, exp, vidx, vrec, devres.get(case["id"], [])))
+            items.append((case, exp, vidx, vrec))
     ck.extra["exported_variants"] = len(items)
     fams = {}
     for it in items:
@@ -143,11 +133,10 @@ def replay_variants(ck, ex, dv, tier):
             cs = byid[cid]
             vrec = (cs["base"] if vidx == 0 else cs["variants"][vidx - 1])
             ck.violation({"kind": "S->I variant", "how": how, "case": cs["case"], "ff": ffs[cs["case"]["ff"] - 1], "variant": vrec["var"],
-                          "expected": cs["expected"], "observed": obs, "differences": diffs, "devlist": devres.get(cid, []),
-                          "itpdiffers": vrec.get("itpdiffers"), "itpout": vrec.get("itpout")},
-                         sig=SIGS[flag] if kind == "known" else None,
-                         what="case %d (%s), variant %d [%s, %s]: the %s differs from the declared result of the same input: %s" % (
-                             cid, " ".join(cs["case"]["rn"]), vidx, vrec["var"]["fam"], how, "written .itp" if how == "gen_params" else "built molecule", "; ".join(diffs)[:400]))
+                          "expected": cs["expected"], "observed": obs, "differences": diffs},
+                         what="case %d (%s), variant %d [%s, %s]: the %s differs from the declared result of the same input%s: %s" % (
+                             cid, " ".join(cs["case"]["rn"]), vidx, vrec["var"]["fam"], how, "written .itp" if how == "gen_params" else "built molecule",
+                             " (it equals the result of the repaired finding %s for this order of files)" % REPAIRED[flag] if flag else "", "; ".join(diffs)[:400]))
     ck.replayed += len(items)
     for it in items:
         ck.nontrivial.add("v:%d:%d" % (it[0]["id"], it[2]))
@@ -290,8 +279,7 @@ def _block(name, natoms, nrexcl, types):
 def random_ff_case(rng, idx):
     """a random force field (2-3 single-residue blocks, optionally a 2-residue block used through from_itp, 2-5 links of the shapes of the
     catalogue, optionally terminal modifications) and a random connected residue graph on 5-8 residues.
-    Restrictions that keep the input out of the three OPEN findings (they are covered with an exact classifier in S->I):
-    from_itp only in acyclic graphs with a single fragment; no explicit link versions when a polyply .itp file is among the inputs."""
+    from_itp residues start at residue id 1 (F14, open, is C01's)."""
     n = rng.randint(5, 8)
     kind = rng.choice(["plain", "plain", "mixedexcl", "frag", "protein"])
     names = ["P", "Q", "R"][:rng.randint(2, 3)]
@@ -321,7 +309,7 @@ def random_ff_case(rng, idx):
             nm = rng.choice(names)
             links.append({"orders": [0, 1], "atoms": [{"oi": 1, "an": last[nm], "rn": [nm]}, {"oi": 2, "an": "c1", "rn": [rng.choice(names)]}],
                           "inters": [{"kind": "bonds", "at": [1, 2], "par": "0.29", "ver": 1}], "rep": [], "del": []})
-        if rng.random() < 0.5 and not use_itp:   # second version of a bond: kept next to the first
+        if rng.random() < 0.5:    # second version of a bond: kept next to the first (also next to polyply .itp files)
             nm = rng.choice(names)
             links.append({"orders": [0, 1], "atoms": [{"oi": 1, "an": last[nm], "rn": [nm]}, {"oi": 2, "an": "c1", "rn": list(names)}],
                           "inters": [{"kind": "bonds", "at": [1, 2], "par": "0.28", "ver": 2}], "rep": [], "del": []})
@@ -343,16 +331,23 @@ def random_ff_case(rng, idx):
     fi = [""] * n
     start = rng.choice([1, 1, 4])
     if kind == "frag":
-        # a linear chain with copies of the 2-residue block M on consecutive residues
+        # a chain (plus random extra edges: cycles through fragments) with one or two copies of the 2-residue block M, adjacent (one
+        # fragment) or separated by other residues (two fragments)
         edges = {frozenset((i, i + 1)) for i in range(1, n)}
+        for a in range(1, n + 1):
+            for b in range(a + 2, n + 1):
+                if rng.random() < 0.1:
+                    edges.add(frozenset((a, b)))
         ncopy = rng.randint(1, 2)
-        at = rng.randint(1, n - 2 * ncopy + 1)
+        starts = [rng.randint(1, n - 2 * ncopy + 1)]
+        if ncopy == 2:
+            starts.append(rng.randint(starts[0] + 2, n - 1))
         blocks.append({"name": "M", "nrexcl": 1, "atoms": [{"an": "x1", "ty": "T1", "rn": "X", "res": 1}, {"an": "x2", "ty": "T2", "rn": "X", "res": 1}, {"an": "y1", "ty": "T3", "rn": "Y", "res": 2}],
                        "inters": [{"kind": "bonds", "at": [1, 2], "par": "0.31", "ver": 1}, {"kind": "bonds", "at": [2, 3], "par": "0.32", "ver": 1}], "cite": []})
-        for k in range(ncopy):
+        for at in starts:
             for j, nm in enumerate(("X", "Y")):
-                rn[at - 1 + 2 * k + j] = nm
-                fi[at - 1 + 2 * k + j] = "M"
+                rn[at - 1 + j] = nm
+                fi[at - 1 + j] = "M"
         allrn = list(names)
         links.append({"orders": [0, 1], "atoms": [{"oi": 1, "an": "y1", "rn": ["Y"]}, {"oi": 2, "an": "x1", "rn": ["X"]}],
                       "inters": [{"kind": "bonds", "at": [1, 2], "par": "0.34", "ver": 1}], "rep": [], "del": []})
@@ -599,12 +594,10 @@ def run(tier, prop=PROP):
                       "an atom removed by a link does not sit at a node key equal to a version number (open finding of C02, label-independent)",
                       "variants compare atoms in order, the interaction MULTISET, nrexcl and the citation set; byte-identical files (minus the command-line "
                       "header) are required for repeated runs / histories, where nothing but the process state differs",
-                      "I->S generators avoid the three open findings (cyclic graphs with from_itp fragments, two fragments, versioned links next to .itp files); "
-                      "S->I covers them with an exact classifier (observation = I-layer result with that deviation)"]
+                      "from_itp residues start at residue id 1 (F14 is open and belongs to C01)"]
     ck.stage("TLC: confluence model, sensitivity, history model, exports")
     jobs = [("main", "IndependenceMC", "Ind_quick.cfg" if tier == "quick" else "Ind_full.cfg", 4 if tier == "quick" else 8, {}),
             ("export", "IndependenceExport", "Ind_export.cfg", 1, {}),
-            ("devres", "IndependenceExport", "Ind_devres.cfg", 3, {}),
             ("hist", "IndependenceHistMC", "Ind_hist_3.cfg" if tier == "quick" else "Ind_hist_4.cfg", 1, {})]
     jobs += [("dev:" + cfg, "IndependenceMC", cfg, 1, {"check": False}) for cfg, _ in DEVS]
     jobs += [("hdev:" + cfg, "IndependenceHistMC", cfg, 1, {"check": False}) for cfg, _ in HDEVS]
@@ -617,12 +610,11 @@ def run(tier, prop=PROP):
     for cfg, what in HDEVS:
         ck.model_must_refute(res["hdev:" + cfg], "HistoryIndependent", what)
     ck.model_must_hold(res["export"], "export")
-    ck.model_must_hold(res["devres"], "deviation results")
     keep = res["export"].tagged("KEEP")
     ck.extra["must_keep_pairs_per_catalogue_ff"] = keep[0] if keep else None
 
     ck.stage("S->I: every labelling / ordering of every base case through the real pipeline")
-    ffs, byid = replay_variants(ck, res["export"], res["devres"], tier)
+    ffs, byid = replay_variants(ck, res["export"], tier)
 
     ck.stage("S->I: all histories of <= 3 calls, one process each")
     hinputs = replay_histories(ck, res["hist"], ffs, tier)
@@ -654,6 +646,16 @@ def run(tier, prop=PROP):
             raise c.MachineryError("random case: " + r["machinery"])
         recs.append(r)
     nreordered = sum(1 for r in recs for v in r["vars"] if [d for f in v["var"]["files"] for d in f["defs"]] != [d for f in r["vars"][0]["var"]["files"] for d in f["defs"]])
+    def _nfrag(case):
+        runs, prev = 0, False
+        for x in case["fi"]:
+            runs += 1 if (x and not prev) else 0
+            prev = bool(x)
+        return runs
+    ck.extra["random_cases_beyond_former_findings"] = {
+        "from_itp_in_cyclic_graph": sum(1 for F, cs in gen if any(cs["fi"]) and len(cs["E"]) >= cs["n"]),
+        "two_separate_fragments": sum(1 for F, cs in gen if _nfrag(cs) >= 2),
+        "link_versions_next_to_itp_files": sum(1 for F, cs in gen if any(f["syn"] == "itp" for f in F["files"]) and any(x["ver"] != 1 for l in F["links"] for x in l["inters"]))}
     ck.extra["random_cases"] = {"cases": len(recs), "variants": sum(len(r["vars"]) for r in recs), "variants_with_reordered_definitions": nreordered,
                                 "with_mustkeep_pairs": sum(1 for k in keeps if k)}
     ck.sample({"I->S random case": recs[0]["case"], "files": gen[0][0]["files"], "variant": recs[0]["vars"][1]["var"], "observed atoms": len(recs[0]["vars"][1]["proj"]["atoms"])})
